@@ -522,7 +522,7 @@ static void run_seed(Choices &c, Ctx &ctx)
 	int n = (int)c.range(2, (uint64_t)std::max(2, maxthreads));
 	static const char *keys[] = {"key", "", "a somewhat longer member name", "k1", "\xc3\xa4"};
 	const char *key = keys[c.pickn(5)];
-	int retries = c.coin(30) ? (int)c.range(1, 3) : 0;
+	int retries = c.coin(30) ? (int)c.range(1, 6) : 0;
 	bool switch_hash = c.coin(50);
 	int pfd[2];
 	if (pipe(pfd) != 0)
@@ -594,7 +594,11 @@ static void run_seed(Choices &c, Ctx &ctx)
 		ctx.fail("seed-trial-crashed", "the trial process died (status " + str(st) + "): " + desc);
 	if (rep[1] < 2)
 	{
-		// fewer than two threads reached the initialisation branch: no race took place
+		// fewer than two threads reached the initialisation branch: the race did not take the expected form - but
+		// threads that disagree about the hash of the key are a violation whatever form it took
+		if (rep[0] != 0 || WEXITSTATUS(st) != 0)
+			ctx.fail("seed-not-unique", str((int)rep[0]) + " hash values / lookups (of " + str(n) + " threads, plus the later probes) differ from the process's final hash of the key, although only " +
+			                                str((int)rep[1]) + " thread(s) asked the entropy source: " + desc);
 		ctx.label("not_explored_no_seed_race");
 		return;
 	}
